@@ -18,11 +18,12 @@ add("C10",
     "domination filter): for every update history the hall holds exactly the smallest non-NaN keys offered, sorted, "
     "ties in arrival order, fresh copies; for every interleaving of update/insert/remove/clear (NaN keys and capacity 0 "
     "included) the ordering/NaN/freshness invariant holds; the Pareto front is a permutation of the non-dominated offers and an antichain. "
+    "The Pareto dominance test is TRANSLATED from the current source on every run (tr_pareto.py -> Gen/ParetoRule.v) and proved equal to the model's. "
     "The model is tied to bingo/stats/*.py by running both on the same generated operation histories and comparing "
     "inside Coq (vm_compute).",
     "Trusted: Coq kernel + vm_compute; the order embedding of non-NaN floats into Z; deepcopy = fresh id; the "
     "Python harness. Manual inserts of NaN keys and capacity 0 are part of the histories (findings F12a/F12b, fixed). Axiom-free.",
-    "Rocq/Coq proof by induction over operation histories + differential correspondence")
+    "Rocq/Coq proof by induction over operation histories + translator for the dominance test + differential correspondence")
 
 add("C15",
     "Coq theorems over an executable model of the NaN-aware best-individual scan (Island, SerialArchipelago), of Python's "
